@@ -4,9 +4,10 @@
 
 use crate::haystack::val::Value;
 use crate::timezone::{
-    is_utc, make_date_time, make_date_time_with_tz, timezone_short_name, utc_now, DateTimeType,
+    is_utc, make_date_time, make_date_time_with_tz, rfc3339_offset, timezone_short_name, utc_now,
+    DateTimeType,
 };
-use chrono::{DateTime as DateTimeImpl, FixedOffset, Offset, SecondsFormat, Utc};
+use chrono::{DateTime as DateTimeImpl, FixedOffset, SecondsFormat, Utc};
 
 use std::cmp::Ordering;
 use std::fmt::{Debug, Display, Formatter};
@@ -70,18 +71,9 @@ impl DateTime {
     /// relative to the whole-minute offset that is printed, so the text denotes
     /// the same instant.
     pub fn to_rfc3339_string(&self) -> String {
-        let offset = self.value.offset().fix().local_minus_utc();
-        if offset % 60 == 0 {
-            return self.value.to_rfc3339_opts(SecondsFormat::AutoSi, true);
-        }
-        let minutes = (offset as f64 / 60.0).round() as i32;
-        match FixedOffset::east_opt(minutes * 60) {
-            Some(fixed) => self
-                .value
-                .with_timezone(&fixed)
-                .to_rfc3339_opts(SecondsFormat::AutoSi, true),
-            None => self.value.to_rfc3339_opts(SecondsFormat::AutoSi, true),
-        }
+        self.value
+            .with_timezone(&rfc3339_offset(self.value.offset()))
+            .to_rfc3339_opts(SecondsFormat::AutoSi, true)
     }
 
     /// Get this `DateTime`'s short variant timezone name, or the city name of the timezone
